@@ -344,6 +344,21 @@ func c06RefRLE(b []byte) ([]byte, bool) {
 	return out, true
 }
 
+// c06RefRLEFast decodes with a single allocation (user-code side only).
+func c06RefRLEFast(b []byte) ([]byte, bool) {
+	n := 0
+	for i := 0; i+1 < len(b); i += 2 {
+		n += int(b[i])
+	}
+	out := make([]byte, 0, n)
+	for i := 0; i+1 < len(b); i += 2 {
+		for k := 0; k < int(b[i]); k++ {
+			out = append(out, b[i+1])
+		}
+	}
+	return out, len(b)%2 == 0
+}
+
 type c06RLEReader struct {
 	src io.Reader
 	n   int
@@ -418,7 +433,18 @@ type c06RLEV0 struct{ cnt *c06Count }
 
 func (c *c06RLEV0) Type() string { return "c06rle" }
 func (c *c06RLEV0) Do(r io.Reader) ([]byte, error) {
-	b, err := io.ReadAll(&c06RLEReader{src: r})
+	var in bytes.Buffer
+	if rr, ok := r.(interface{ Remaining() int }); ok {
+		in.Grow(rr.Remaining())
+	}
+	if _, err := in.ReadFrom(r); err != nil {
+		return nil, err
+	}
+	b, ok := c06RefRLEFast(in.Bytes())
+	var err error
+	if !ok {
+		err = errors.New("c06rle: odd length")
+	}
 	if c.cnt != nil {
 		c.cnt.v0 += int64(len(b))
 	}
